@@ -95,70 +95,134 @@ theorem reset_none (v : Node) : ∀ (l : List Node) (s : TyMap), (v ∈ l ∨ ty
       · left; simpa [hvw] using h
       · right; rw [tyGet_set]; simp [hvw, h]
 
-/-- the first loop's write of one equation, read off the equation itself -/
-def tw (rq : Eqn → Bool) (ty : TyMap) (e : Eqn) : TyMap :=
+/-- the first type-writing loop, one equation, read off the equation itself: the left-hand side of an ordinary
+    equation is PARAMETER or COMPUTED, an ODE writes nothing -/
+def twL (rq : Eqn → Bool) (ty : TyMap) (e : Eqn) : TyMap :=
   match e.ode with
-  | some (s, f) => tySet (tySet ty s (some VT.state)) f (some VT.free)
+  | some _ => ty
   | none => if rq e then tySet ty e.lhs (some VT.parameter) else tySet ty e.lhs (some VT.computed)
 
-theorem tw_isSF (rq : Eqn → Bool) (v : Node) : ∀ (es : List Eqn) (ty : TyMap),
-    (∀ e ∈ es, e.ode = none → e.lhs ≠ v) →
-    isSF (tyGet (es.foldl (tw rq) ty) v) = (isStateOrFree es v || isSF (tyGet ty v))
-  | [], ty, _ => by simp [isStateOrFree]
+/-- the two loops after it, one equation: the variable `k (state, free)` of an ODE gets the role `t` -/
+def twK (k : Node × Node → Node) (t : VT) (ty : TyMap) (e : Eqn) : TyMap :=
+  match e.ode with
+  | some p => tySet ty (k p) (some t)
+  | none => ty
+
+/-- `v` is the variable `k (state, free)` of the ODE `e` -/
+def isK (k : Node × Node → Node) (v : Node) (e : Eqn) : Bool :=
+  match e.ode with
+  | some p => v == k p
+  | none => false
+
+/-- the three type-writing loops: all left-hand sides, then all states, then all free variables -/
+def tw (rq : Eqn → Bool) (ty : TyMap) (es : List Eqn) : TyMap :=
+  es.foldl (twK Prod.snd VT.free) (es.foldl (twK Prod.fst VT.state) (es.foldl (twL rq) ty))
+
+theorem twL_notSF (rq : Eqn → Bool) (v : Node) : ∀ (es : List Eqn) (ty : TyMap),
+    isSF (tyGet ty v) = false → isSF (tyGet (es.foldl (twL rq) ty) v) = false
+  | [], _, h => h
   | e :: es, ty, h => by
     simp only [List.foldl_cons]
-    rw [tw_isSF rq v es _ (fun e' he' => h e' (List.mem_cons_of_mem _ he'))]
-    simp only [isStateOrFree, List.any_cons]
-    cases ho : e.ode with
+    apply twL_notSF rq v es
+    unfold twL
+    cases e.ode with
+    | some p => exact h
     | none =>
-      have hne : ¬ v = e.lhs := fun hh => h e (by simp) ho hh.symm
-      simp only [tw, ho]
-      split_ifs <;> simp [tyGet_set, hne, Bool.or_comm]
+      simp only []
+      split_ifs <;> (rw [tyGet_set]; split_ifs <;> first | exact h | simp [isSF, Py.isIn])
+
+theorem twK_isSF (k : Node × Node → Node) (t : VT) (ht : isSF (some t) = true) (v : Node) :
+    ∀ (es : List Eqn) (ty : TyMap),
+      isSF (tyGet (es.foldl (twK k t) ty) v) = (es.any (isK k v) || isSF (tyGet ty v))
+  | [], ty => by simp
+  | e :: es, ty => by
+    simp only [List.foldl_cons, List.any_cons]
+    rw [twK_isSF k t ht v es]
+    unfold twK isK
+    cases e.ode with
+    | none => simp
+    | some p =>
+      simp only [tyGet_set]
+      by_cases h : v = k p
+      · simp [h, ht]
+      · have : (v == k p) = false := by simpa using h
+        simp [h, this]
+
+theorem sf_split (v : Node) : ∀ (es : List Eqn),
+    isStateOrFree es v = (es.any (isK Prod.snd v) || es.any (isK Prod.fst v))
+  | [] => by simp [isStateOrFree]
+  | e :: es => by
+    have ih := sf_split v es
+    simp only [isStateOrFree, List.any_cons] at ih ⊢
+    rw [ih]
+    unfold isK
+    cases e.ode with
+    | none => simp
     | some p =>
       obtain ⟨s, f⟩ := p
-      simp only [tw, ho, tyGet_set]
-      by_cases h1 : v = f <;> by_cases h2 : v = s
-      · simp [h1, isSF, Py.isIn]
-      · simp [h1, isSF, Py.isIn]
-      · have e2 : (s == f) = false := by rw [← h2]; simpa using h1
-        simp [h2, e2, h2 ▸ h1, isSF, Py.isIn]
-      · have e1 : (v == f) = false := by simpa using h1
-        have e2 : (v == s) = false := by simpa using h2
-        simp [h1, h2, e1, e2, isSF, Py.isIn, Bool.or_comm]
+      simp only []
+      ac_rfl
 
-theorem tw_isSome (rq : Eqn → Bool) (v : Node) : ∀ (es : List Eqn) (ty : TyMap),
-    ((∃ e ∈ es, e.ode = none ∧ e.lhs = v) ∨ isStateOrFree es v = true ∨ (tyGet ty v).isSome = true) →
-    (tyGet (es.foldl (tw rq) ty) v).isSome = true
-  | [], ty, h => by simpa [isStateOrFree] using h
+/-- after the three loops a variable is typed STATE or FREE iff it is the state or the free variable of some ODE —
+    whether or not it is a left-hand side, too, and wherever the ODE stands -/
+theorem tw_isSF (rq : Eqn → Bool) (v : Node) (es : List Eqn) (ty : TyMap) (h0 : isSF (tyGet ty v) = false) :
+    isSF (tyGet (tw rq ty es) v) = isStateOrFree es v := by
+  unfold tw
+  rw [twK_isSF _ _ (by decide) v, twK_isSF _ _ (by decide) v, twL_notSF rq v es ty h0, sf_split]
+  simp
+
+theorem twL_isSome (rq : Eqn → Bool) (v : Node) : ∀ (es : List Eqn) (ty : TyMap),
+    ((∃ e ∈ es, e.ode = none ∧ e.lhs = v) ∨ (tyGet ty v).isSome = true) →
+    (tyGet (es.foldl (twL rq) ty) v).isSome = true
+  | [], ty, h => by simpa using h
   | e :: es, ty, h => by
     simp only [List.foldl_cons]
-    apply tw_isSome rq v es
-    simp only [isStateOrFree, List.any_cons, List.mem_cons, exists_eq_or_imp, Bool.or_eq_true] at h
-    by_cases hw : (tyGet (tw rq ty e) v).isSome = true
-    · exact Or.inr (Or.inr hw)
-    · rcases h with (⟨ho, hl⟩ | h) | (h | h) | h
-      · exfalso; apply hw; simp only [tw, ho]; split_ifs <;> simp [tyGet_set, hl]
-      · exact Or.inl h
-      · exfalso; apply hw
-        cases ho : e.ode with
-        | none => simp [ho] at h
-        | some p =>
-          obtain ⟨s, f⟩ := p
-          simp only [ho, Bool.or_eq_true, beq_iff_eq] at h
-          simp only [tw, ho, tyGet_set]
-          by_cases h1 : v = f
-          · simp [h1]
-          · rcases h with h | h
-            · simp only [h, if_true]; split_ifs <;> rfl
-            · exact absurd h h1
-      · exact Or.inr (Or.inl h)
-      · exfalso; apply hw
-        cases ho : e.ode with
-        | none => simp only [tw, ho]; split_ifs <;> (rw [tyGet_set]; split_ifs <;> simp [h])
-        | some p =>
-          obtain ⟨s, f⟩ := p
-          simp only [tw, ho, tyGet_set]
-          split_ifs <;> simp [h]
+    apply twL_isSome rq v es
+    simp only [List.mem_cons, exists_eq_or_imp] at h
+    rcases h with (⟨ho, hl⟩ | h) | h
+    · right; simp only [twL, ho]; split_ifs <;> simp [tyGet_set, hl]
+    · exact Or.inl h
+    · right
+      unfold twL
+      cases e.ode with
+      | some p => exact h
+      | none => simp only []; split_ifs <;> (rw [tyGet_set]; split_ifs <;> simp [h])
+
+theorem twK_isSome (k : Node × Node → Node) (t : VT) (v : Node) : ∀ (es : List Eqn) (ty : TyMap),
+    (es.any (isK k v) = true ∨ (tyGet ty v).isSome = true) → (tyGet (es.foldl (twK k t) ty) v).isSome = true
+  | [], ty, h => by simpa using h
+  | e :: es, ty, h => by
+    simp only [List.foldl_cons]
+    apply twK_isSome k t v es
+    simp only [List.any_cons, Bool.or_eq_true] at h
+    rcases h with (h | h) | h
+    · right
+      unfold isK at h
+      unfold twK
+      cases ho : e.ode with
+      | none => rw [ho] at h; cases h
+      | some p =>
+        rw [ho] at h
+        simp only [beq_iff_eq] at h
+        simp [tyGet_set, h]
+    · exact Or.inl h
+    · right
+      unfold twK
+      cases e.ode with
+      | none => exact h
+      | some p => simp only []; rw [tyGet_set]; split_ifs <;> simp [h]
+
+theorem tw_isSome (rq : Eqn → Bool) (v : Node) (es : List Eqn) (ty : TyMap)
+    (h : (∃ e ∈ es, e.ode = none ∧ e.lhs = v) ∨ isStateOrFree es v = true ∨ (tyGet ty v).isSome = true) :
+    (tyGet (tw rq ty es) v).isSome = true := by
+  unfold tw
+  rcases h with h | h | h
+  · exact twK_isSome _ _ v es _ (.inr (twK_isSome _ _ v es _ (.inr (twL_isSome rq v es ty (.inl h)))))
+  · rw [sf_split, Bool.or_eq_true] at h
+    rcases h with h | h
+    · exact twK_isSome _ _ v es _ (.inl h)
+    · exact twK_isSome _ _ v es _ (.inr (twK_isSome _ _ v es _ (.inl h)))
+  · exact twK_isSome _ _ v es _ (.inr (twK_isSome _ _ v es _ (.inr (twL_isSome rq v es ty (.inr h)))))
 
 /-! ## the second loop -/
 
@@ -240,20 +304,27 @@ theorem reset_eqs (atoms : Eqn → List Node) (v : Node) : ∀ (es : List Eqn) (
     · exact Or.inl h
     · exact Or.inr (reset_none v _ _ (Or.inr h))
 
-/-- the first loop's write of one equation, as the generated code does it (through the view) -/
-def twV (V : BuildView) (ty : TyMap) (e : Eqn) : TyMap :=
-  if V.isDerivative e.lhs = true then
-    tySet (tySet ty (V.stateOf e.lhs) (some VT.state)) (V.freeOf e.lhs) (some VT.free)
+/-- the first type-writing loop, one equation, as the generated code does it (through the view) -/
+def twLV (V : BuildView) (ty : TyMap) (e : Eqn) : TyMap :=
+  if V.isDerivative e.lhs = true then ty
   else if V.rhsIsQuantity e = true then tySet ty e.lhs (some VT.parameter)
   else tySet ty e.lhs (some VT.computed)
 
-theorem fold1 (V : BuildView) : ∀ (es : List Eqn) (t : TyMap) (g : Graph) (n : Nat),
-    es.foldl (fun (s : TyMap × Graph × Nat) e => (twV V s.1 e, nxAddNode s.2.1 e.lhs, s.2.2 + 1)) (t, g, n)
-      = (es.foldl (twV V) t, ⟨(es.map (·.lhs)).foldl Py.addNew g.nodes, g.edges⟩, n + es.length)
+/-- the second: STATE -/
+def twSV (V : BuildView) (ty : TyMap) (e : Eqn) : TyMap :=
+  if V.isDerivative e.lhs = true then tySet ty (V.stateOf e.lhs) (some VT.state) else ty
+
+/-- the third: FREE -/
+def twFV (V : BuildView) (ty : TyMap) (e : Eqn) : TyMap :=
+  if V.isDerivative e.lhs = true then tySet ty (V.freeOf e.lhs) (some VT.free) else ty
+
+theorem fold1 (f : TyMap → Eqn → TyMap) : ∀ (es : List Eqn) (t : TyMap) (g : Graph) (n : Nat),
+    es.foldl (fun (s : TyMap × Graph × Nat) e => (f s.1 e, nxAddNode s.2.1 e.lhs, s.2.2 + 1)) (t, g, n)
+      = (es.foldl f t, ⟨(es.map (·.lhs)).foldl Py.addNew g.nodes, g.edges⟩, n + es.length)
   | [], t, g, n => by simp
   | e :: es, t, g, n => by
     simp only [List.foldl_cons, List.map_cons, List.length_cons]
-    rw [fold1 V es]
+    rw [fold1 f es]
     simp only [nxAddNode]
     congr 2
     omega
@@ -262,21 +333,46 @@ theorem odeOfNode_of_mem {eqs : List Eqn} (hnd : (eqs.map (·.lhs)).Nodup) {e : 
     odeOfNode eqs e.lhs = e.ode := by
   simp [odeOfNode, eqnOf_of_mem hnd he]
 
-theorem twV_eq_tw (key : Node → String) (eqs : List Eqn) (vars : List Node) (rq : Eqn → Bool)
+theorem twLV_eq (key : Node → String) (eqs : List Eqn) (vars : List Node) (rq : Eqn → Bool)
     (hnd : (eqs.map (·.lhs)).Nodup) (ty : TyMap) (e : Eqn) (he : e ∈ eqs) :
-    twV (buildView key eqs vars rq) ty e = tw rq ty e := by
-  simp only [twV, tw, buildView, odeOfNode_of_mem hnd he]
+    twLV (buildView key eqs vars rq) ty e = twL rq ty e := by
+  simp only [twLV, twL, buildView, odeOfNode_of_mem hnd he]
   cases ho : e.ode with
   | none => by_cases h : rq e = true <;> simp [h]
-  | some p => obtain ⟨s, f⟩ := p; simp
+  | some p => simp
 
-/-- **Tie of the `Model.graph` property** (no cached graph). For every equation system, every list of model
-    variables, every assignment of `isinstance(rhs, Quantity)` and EVERY initial state `ty0` of the `Variable.type`
-    attributes (whatever an earlier build left behind), the definition generated from model.py returns the graph
-    `C09.buildGraph` returns and caches it, or raises `AssertionError` where the model reports `assertion` / `badRef`. -/
-theorem graph_tie (key : Node → String) (eqs : List Eqn) (vars : List Node) (rq : Eqn → Bool) (ty0 : TyMap) :
-    (GraphBuild.graph (buildView key eqs vars rq) none ty0).map (fun r => (r.1, r.2.1))
-      = errClass (errName true) ((buildGraph key eqs).map (fun g => (g, some g))) := by
+theorem twSV_eq (key : Node → String) (eqs : List Eqn) (vars : List Node) (rq : Eqn → Bool)
+    (hnd : (eqs.map (·.lhs)).Nodup) (ty : TyMap) (e : Eqn) (he : e ∈ eqs) :
+    twSV (buildView key eqs vars rq) ty e = twK Prod.fst VT.state ty e := by
+  simp only [twSV, twK, buildView, odeOfNode_of_mem hnd he]
+  cases ho : e.ode with
+  | none => simp
+  | some p => simp
+
+theorem twFV_eq (key : Node → String) (eqs : List Eqn) (vars : List Node) (rq : Eqn → Bool)
+    (hnd : (eqs.map (·.lhs)).Nodup) (ty : TyMap) (e : Eqn) (he : e ∈ eqs) :
+    twFV (buildView key eqs vars rq) ty e = twK Prod.snd VT.free ty e := by
+  simp only [twFV, twK, buildView, odeOfNode_of_mem hnd he]
+  cases ho : e.ode with
+  | none => simp
+  | some p => simp
+
+/-- `Variable.type` of every variable after the two reset loops at the head of `Model.graph` -/
+def resetTy (V : BuildView) (ty0 : TyMap) : TyMap :=
+  V.equations.foldl (fun s e => (V.atoms e).foldl (fun s v => tySet s v none) s)
+    (V.variables.foldl (fun s v => tySet s v none) ty0)
+
+/-- **Tie of the `Model.graph` property** (no cached graph), graph AND roles. For every equation system, every list
+    of model variables, every assignment of `isinstance(rhs, Quantity)` and EVERY initial state `ty0` of the
+    `Variable.type` attributes (whatever an earlier build left behind), the definition generated from model.py returns
+    the graph `C09.buildGraph` returns and caches it, and leaves the `Variable.type` attributes that the three
+    type-writing loops `tw` give (left-hand sides, then STATE, then FREE) — or raises `AssertionError` where the model
+    reports `assertion` / `badRef`. -/
+theorem graph_tie_types (key : Node → String) (eqs : List Eqn) (vars : List Node) (rq : Eqn → Bool) (ty0 : TyMap) :
+    GraphBuild.graph (buildView key eqs vars rq) none ty0
+      = errClass (errName true) ((buildGraph key eqs).map
+          (fun g => (g, some g, tw rq (resetTy (buildView key eqs vars rq) ty0) eqs))) := by
+  unfold resetTy
   unfold GraphBuild.graph
   simp only [bind, Except.bind, pure, Except.pure, Py.truthy_bool, throw, throwThe, MonadExceptOf.throw]
   generalize hV : buildView key eqs vars rq = V
@@ -288,9 +384,13 @@ theorem graph_tie (key : Node → String) (eqs : List Eqn) (vars : List Node) (r
   rw [forIn_pure _ (fun s e => (V.atoms e).foldl (fun s v => tySet s v none) s) (fun e s => by
     rw [forIn_pure _ (fun s v => tySet s v none) (fun _ _ => by rfl)])]
   simp only []
-  rw [forIn_pure _ (fun (s : TyMap × Graph × Nat) e => (twV V s.1 e, nxAddNode s.2.1 e.lhs, s.2.2 + 1))
-    (fun e s => by simp only [twV]; split_ifs <;> rfl)]
+  rw [forIn_pure _ (fun (s : TyMap × Graph × Nat) e => (twLV V s.1 e, nxAddNode s.2.1 e.lhs, s.2.2 + 1))
+    (fun e s => by simp only [twLV]; split_ifs <;> rfl)]
   simp only [hVeq, fold1]
+  rw [forIn_pure _ (twSV V) (fun e s => by simp only [twSV]; split_ifs <;> rfl)]
+  simp only []
+  rw [forIn_pure _ (twFV V) (fun e s => by simp only [twFV]; split_ifs <;> rfl)]
+  simp only []
   generalize hty1 : List.foldl (fun s e => List.foldl (fun s v => tySet s v none) s (V.atoms e)) _ eqs = ty1
   simp only [Option.isSome_none, Bool.false_eq_true, if_false, Nat.zero_add, hVkey, hVrefs]
   have hlen : eqs.length = (eqs.map (·.lhs)).length := by simp
@@ -305,12 +405,13 @@ theorem graph_tie (key : Node → String) (eqs : List Eqn) (vars : List Node) (r
           == eqs.length) = true := by
         rw [hlen2, foldl_addNew_len_eq]; simpa using hkn
       simp only [e2, Bool.not_true, Bool.false_eq_true, if_false]
-      have hT : List.foldl (twV V) ty1 eqs = List.foldl (tw rq) ty1 eqs := by
-        apply foldl_congr_mem
-        intro s e he
-        rw [← hV]; exact twV_eq_tw key eqs vars rq hnd s e he
+      have hT : List.foldl (twFV V) (List.foldl (twSV V) (List.foldl (twLV V) ty1 eqs) eqs) eqs = tw rq ty1 eqs := by
+        unfold tw
+        rw [foldl_congr_mem (twLV V) (twL rq) eqs ty1 (fun s e he => by rw [← hV]; exact twLV_eq key eqs vars rq hnd s e he),
+          foldl_congr_mem (twSV V) (twK Prod.fst VT.state) eqs _ (fun s e he => by rw [← hV]; exact twSV_eq key eqs vars rq hnd s e he),
+          foldl_congr_mem (twFV V) (twK Prod.snd VT.free) eqs _ (fun s e he => by rw [← hV]; exact twFV_eq key eqs vars rq hnd s e he)]
       rw [hT]
-      generalize hTT : List.foldl (tw rq) ty1 eqs = T
+      generalize hTT : tw rq ty1 eqs = T
       have hreset : ∀ e ∈ eqs, ∀ r ∈ e.refs, tyGet ty1 r = none := by
         intro e he r hr
         rw [← hty1]
@@ -323,8 +424,7 @@ theorem graph_tie (key : Node → String) (eqs : List Eqn) (vars : List Node) (r
         rw [Py.sortedByStr_eq, refsLoop (isStateOrFree eqs) T e.lhs _ (fun r G' => by
           simp only [isSF, Py.isIn, List.contains_eq_mem]
           by_cases h1 : r ∈ G'.nodes <;> simp [h1]) (sortStr key e.refs) G (fun r hr hn => by
-            rw [← hTT, tw_isSF rq r eqs ty1 (fun e' he' _ hl => hn (hb _ (List.mem_map.mpr ⟨e', he', hl⟩)))]
-            simp [hreset e he r (mem_sortStr.mp hr), isSF, Py.isIn])]
+            rw [← hTT, tw_isSF rq r eqs ty1 (by simp [hreset e he r (mem_sortStr.mp hr), isSF, Py.isIn])])]
         cases addRefs (isStateOrFree eqs) e.lhs (sortStr key e.refs) G with
         | error x => rfl
         | ok v =>
@@ -370,6 +470,124 @@ theorem graph_tie (key : Node → String) (eqs : List Eqn) (vars : List Node) (r
       rw [hlen, foldl_addNew_len_eq]; simpa using hnd
     simp only [e1, Bool.not_false, if_true, buildGraph, hnd, not_false_eq_true]
     rfl
+
+/-- **Tie of the `Model.graph` property** (no cached graph): the graph and the cache. -/
+theorem graph_tie (key : Node → String) (eqs : List Eqn) (vars : List Node) (rq : Eqn → Bool) (ty0 : TyMap) :
+    (GraphBuild.graph (buildView key eqs vars rq) none ty0).map (fun r => (r.1, r.2.1))
+      = errClass (errName true) ((buildGraph key eqs).map (fun g => (g, some g))) := by
+  rw [graph_tie_types]
+  cases buildGraph key eqs <;> rfl
+
+/-! ## the roles left behind are a function of the SET of equations (on the generated code) -/
+
+theorem twK_get (k : Node × Node → Node) (t : VT) (v : Node) : ∀ (es : List Eqn) (ty : TyMap),
+    tyGet (es.foldl (twK k t) ty) v = if es.any (isK k v) = true then some t else tyGet ty v
+  | [], ty => by simp
+  | e :: es, ty => by
+    simp only [List.foldl_cons, List.any_cons]
+    rw [twK_get k t v es]
+    cases ho : e.ode with
+    | none => simp [twK, isK, ho]
+    | some p =>
+      by_cases h : v = k p
+      · simp [twK, isK, ho, h, tyGet_set]
+      · have : (v == k p) = false := by simpa using h
+        simp [twK, isK, ho, h, this, tyGet_set]
+
+theorem twL_miss (rq : Eqn → Bool) (v : Node) : ∀ (es : List Eqn) (ty : TyMap),
+    (∀ e ∈ es, e.ode = none → e.lhs ≠ v) → tyGet (es.foldl (twL rq) ty) v = tyGet ty v
+  | [], _, _ => rfl
+  | e :: es, ty, h => by
+    simp only [List.foldl_cons]
+    rw [twL_miss rq v es _ (fun e' he' => h e' (List.mem_cons_of_mem _ he'))]
+    unfold twL
+    cases ho : e.ode with
+    | some p => rfl
+    | none =>
+      have hne : ¬ v = e.lhs := fun hh => h e List.mem_cons_self ho hh.symm
+      simp only []
+      split_ifs <;> simp [tyGet_set, hne]
+
+theorem twL_hit (rq : Eqn → Bool) (v : Node) : ∀ (es : List Eqn) (ty : TyMap), (es.map (·.lhs)).Nodup →
+    ∀ e ∈ es, e.ode = none → e.lhs = v →
+      tyGet (es.foldl (twL rq) ty) v = some (if rq e then VT.parameter else VT.computed)
+  | [], _, _, _, he, _, _ => by cases he
+  | e :: es, ty, hnd, e', he', ho, hl => by
+    simp only [List.foldl_cons]
+    rw [List.map_cons, List.nodup_cons] at hnd
+    rcases List.mem_cons.mp he' with rfl | he'
+    · rw [twL_miss rq v es _ (fun e'' he'' _ hl'' => hnd.1 (List.mem_map.mpr ⟨e'', he'', hl''.trans hl.symm⟩))]
+      simp only [twL, ho]
+      split_ifs <;> simp [tyGet_set, hl]
+    · exact twL_hit rq v es _ hnd.2 e' he' ho hl
+
+/-- the three type-writing loops give every variable the same role for every order of the equations -/
+theorem tw_perm (rq : Eqn → Bool) {es es' : List Eqn} (hp : es'.Perm es) (hnd : (es.map (·.lhs)).Nodup)
+    (ty ty' : TyMap) (v : Node) (hty : tyGet ty' v = tyGet ty v) :
+    tyGet (tw rq ty' es') v = tyGet (tw rq ty es) v := by
+  unfold tw
+  rw [twK_get, twK_get, twK_get, twK_get, hp.any_eq, hp.any_eq]
+  have hnd' : (es'.map (·.lhs)).Nodup := (hp.map _).nodup_iff.mpr hnd
+  have : tyGet (es'.foldl (twL rq) ty') v = tyGet (es.foldl (twL rq) ty) v := by
+    by_cases h : ∃ e ∈ es, e.ode = none ∧ e.lhs = v
+    · obtain ⟨e, he, ho, hl⟩ := h
+      rw [twL_hit rq v es ty hnd e he ho hl, twL_hit rq v es' ty' hnd' e (hp.mem_iff.mpr he) ho hl]
+    · rw [twL_miss rq v es ty (fun e he ho hl => h ⟨e, he, ho, hl⟩),
+        twL_miss rq v es' ty' (fun e he ho hl => h ⟨e, hp.mem_iff.mp he, ho, hl⟩), hty]
+  rw [this]
+
+theorem reset_keep (v : Node) : ∀ (l : List Node) (s : TyMap), v ∉ l →
+    tyGet (l.foldl (fun s w => tySet s w none) s) v = tyGet s v
+  | [], _, _ => rfl
+  | w :: ws, s, h => by
+    simp only [List.foldl_cons]
+    have hne : ¬ v = w := fun hh => h (hh ▸ List.mem_cons_self)
+    rw [reset_keep v ws _ (fun hh => h (List.mem_cons_of_mem _ hh)), tyGet_set]
+    simp [hne]
+
+theorem reset_eqs_keep (atoms : Eqn → List Node) (v : Node) : ∀ (es : List Eqn) (s : TyMap),
+    (∀ e ∈ es, v ∉ atoms e) →
+    tyGet (es.foldl (fun s e => (atoms e).foldl (fun s w => tySet s w none) s) s) v = tyGet s v
+  | [], _, _ => rfl
+  | e :: es, s, h => by
+    simp only [List.foldl_cons]
+    rw [reset_eqs_keep atoms v es _ (fun e' he' => h e' (List.mem_cons_of_mem _ he')),
+      reset_keep v _ _ (h e List.mem_cons_self)]
+
+/-- the reset loops do not look at the order of the equations either -/
+theorem resetTy_perm (key : Node → String) {eqs eqs' : List Eqn} (hp : eqs'.Perm eqs) (vars : List Node)
+    (rq : Eqn → Bool) (ty0 : TyMap) (v : Node) :
+    tyGet (resetTy (buildView key eqs' vars rq) ty0) v = tyGet (resetTy (buildView key eqs vars rq) ty0) v := by
+  show tyGet (eqs'.foldl (fun s e => ((buildView key eqs vars rq).atoms e).foldl (fun s v => tySet s v none) s)
+      (vars.foldl (fun s v => tySet s v none) ty0)) v
+    = tyGet (eqs.foldl (fun s e => ((buildView key eqs vars rq).atoms e).foldl (fun s v => tySet s v none) s)
+      (vars.foldl (fun s v => tySet s v none) ty0)) v
+  generalize (buildView key eqs vars rq).atoms = atoms
+  by_cases h : ∃ e ∈ eqs, v ∈ atoms e
+  · obtain ⟨e, he, hv⟩ := h
+    rw [reset_eqs atoms v eqs _ (.inl ⟨e, he, hv⟩), reset_eqs atoms v eqs' _ (.inl ⟨e, hp.mem_iff.mpr he, hv⟩)]
+  · rw [reset_eqs_keep atoms v eqs _ (fun e he hv => h ⟨e, he, hv⟩),
+      reset_eqs_keep atoms v eqs' _ (fun e he hv => h ⟨e, hp.mem_iff.mp he, hv⟩)]
+
+/-- Corollary (the `fix:` "the roles that come from the ODEs win", on the GENERATED code): two runs of the property
+    on the same equations in two orders that both build the graph leave every variable with the same
+    `Variable.type` — whatever an earlier build had left. -/
+theorem graph_types_equation_order (key : Node → String) {eqs eqs' : List Eqn} (hp : eqs'.Perm eqs)
+    (vars : List Node) (rq : Eqn → Bool) (ty0 : TyMap) {r r' : Graph × Option Graph × TyMap}
+    (h : GraphBuild.graph (buildView key eqs vars rq) none ty0 = .ok r)
+    (h' : GraphBuild.graph (buildView key eqs' vars rq) none ty0 = .ok r') (v : Node) :
+    tyGet r'.2.2 v = tyGet r.2.2 v := by
+  rw [graph_tie_types] at h h'
+  cases hg : buildGraph key eqs with
+  | error x => rw [hg] at h; cases h
+  | ok g =>
+    cases hg' : buildGraph key eqs' with
+    | error x => rw [hg'] at h'; cases h'
+    | ok g' =>
+      rw [hg] at h; rw [hg'] at h'
+      simp only [Except.map, errClass, Except.ok.injEq] at h h'
+      rw [← h, ← h']
+      exact tw_perm rq hp (buildGraph_valid hg).1.lhsNodup _ _ v (resetTy_perm key hp vars rq ty0 v)
 
 /-- a cached graph is returned as it is; cache and types stay -/
 theorem graph_cached (V : BuildView) (c : Graph) (ty : TyMap) :
